@@ -208,3 +208,8 @@ def distribution(cases, obs):
             elif op[0] == "saveload":
                 cap = op[1]; n = min(n, cap)
     return d
+
+TECHNIQUE = 'Coq theorems over an executable buffer model (random draws as oracle arguments) + black-box contract oracle proved on the model and evaluated on the real buffers'
+LEVEL_TEXT = 'Machine-checked proof that for every buffer class (plain / dict, any non-empty key set), capacity >= 1, rational probability, and every sequence of add/get/len/mutate-returned/save+load with any admissible random draws, the model obeys the contract oracle (sequential = last max_size in order; random-replacement: bound, fill order, at most one slot changes to the added sample, replaced when draw < p, kept when draw > p and always when p = 0, only added samples, keys aligned, wrong keys rejected unchanged, copies returned, len = data, save/load keeps content, whole documented parameter range accepted). Tied to /repo by running the four public classes with scripted random on generated cases; outputs compared with the model and checked by the same oracle inside Coq.'
+LEVEL_NOTE = "Trusted: Coq kernel + vm_compute; coq/Model/Buffers.v; the runner's scripted `random` stub and view canonicalisation; pickle round trip. Theorems are about the model."
+DESIGN_REF = 'DESIGN.md §4 C11'
